@@ -263,9 +263,11 @@ static void shadow_access(int me, uintptr_t a, size_t n, bool w) {
   if (w) { g_shared_writes++; g_pending_bias = true; g_shared_write_at[describe_addr(a) + " in " + (fn ? fn_name(fn) : std::string("?"))]++; }
 }
 
+static int g_atomic_streak[MAX_TASKS];
 static inline void mem_access(const void *p, size_t n, bool w) {
   if (!g_active) return;
   int me = g_cur;
+  g_atomic_streak[me] = 0;
   uintptr_t a = (uintptr_t)p;
   if (a - g_t[me].stk_lo < g_t[me].stk_hi - g_t[me].stk_lo) { tick(me); return; }
   Region *r = find_region(a, me);
@@ -356,18 +358,33 @@ int sim_mtx_unlock(void *l) { sim_pthread_mutex_unlock((pthread_mutex_t *)l); re
 void sim_call_once(void *flag, void (*fn)(void)) { sim_pthread_once((pthread_once_t *)flag, fn); }
 
 // C11 / __atomic operations: never racy themselves; acquire+release on the location
+// Ordering matters here: the preemption point comes FIRST, then the vector-clock bookkeeping and the real operation
+// happen back to back (no other task can run in between).  An earlier version ticked in the middle; a task could
+// then "acquire" before another task's release and still read the released value afterwards: a false race on a
+// correctly published lazy table (negative control neg-atomic-once-flag).
+// A task that keeps issuing atomic operations without doing anything else is spinning on another task: after a
+// few dozen it yields (unconditionally, outside the preemption budget), as a real scheduler eventually would.
+static void atomic_point(int me) {
+  tick(me);
+  if (++g_atomic_streak[me] >= 48) {
+    g_atomic_streak[me] = 0;
+    int to = pick_other(me, -1);
+    if (to >= 0) { do_switch(to, "spin-yield"); wait_my_turn(me); }
+  }
+}
+#define ATOMIC_PRE() int me_ = g_cur; SyncObj *so_ = nullptr; if (g_active) { atomic_point(me_); me_ = g_cur; so_ = &sync_for((const void *)a); }
 #define ATOMIC_FOR(T, N) \
-  T __tsan_atomic##N##_load(const volatile T *a, int) { if (g_active) { acquire(g_cur, sync_for((const void *)a)); tick(g_cur); } return __atomic_load_n(a, __ATOMIC_SEQ_CST); } \
-  void __tsan_atomic##N##_store(volatile T *a, T v, int) { if (g_active) { release(g_cur, sync_for((const void *)a)); tick(g_cur); } __atomic_store_n(a, v, __ATOMIC_SEQ_CST); } \
-  T __tsan_atomic##N##_exchange(volatile T *a, T v, int) { if (g_active) { SyncObj &s = sync_for((const void *)a); acquire(g_cur, s); release(g_cur, s); tick(g_cur); } return __atomic_exchange_n(a, v, __ATOMIC_SEQ_CST); } \
-  T __tsan_atomic##N##_fetch_add(volatile T *a, T v, int) { if (g_active) { SyncObj &s = sync_for((const void *)a); acquire(g_cur, s); release(g_cur, s); tick(g_cur); } return __atomic_fetch_add(a, v, __ATOMIC_SEQ_CST); } \
-  T __tsan_atomic##N##_fetch_sub(volatile T *a, T v, int) { if (g_active) { SyncObj &s = sync_for((const void *)a); acquire(g_cur, s); release(g_cur, s); tick(g_cur); } return __atomic_fetch_sub(a, v, __ATOMIC_SEQ_CST); } \
-  T __tsan_atomic##N##_fetch_and(volatile T *a, T v, int) { if (g_active) { SyncObj &s = sync_for((const void *)a); acquire(g_cur, s); release(g_cur, s); tick(g_cur); } return __atomic_fetch_and(a, v, __ATOMIC_SEQ_CST); } \
-  T __tsan_atomic##N##_fetch_or(volatile T *a, T v, int) { if (g_active) { SyncObj &s = sync_for((const void *)a); acquire(g_cur, s); release(g_cur, s); tick(g_cur); } return __atomic_fetch_or(a, v, __ATOMIC_SEQ_CST); } \
-  T __tsan_atomic##N##_fetch_xor(volatile T *a, T v, int) { if (g_active) { SyncObj &s = sync_for((const void *)a); acquire(g_cur, s); release(g_cur, s); tick(g_cur); } return __atomic_fetch_xor(a, v, __ATOMIC_SEQ_CST); } \
-  int __tsan_atomic##N##_compare_exchange_strong(volatile T *a, T *c, T v, int, int) { if (g_active) { SyncObj &s = sync_for((const void *)a); acquire(g_cur, s); release(g_cur, s); tick(g_cur); } return __atomic_compare_exchange_n(a, c, v, 0, __ATOMIC_SEQ_CST, __ATOMIC_SEQ_CST); } \
-  int __tsan_atomic##N##_compare_exchange_weak(volatile T *a, T *c, T v, int, int) { if (g_active) { SyncObj &s = sync_for((const void *)a); acquire(g_cur, s); release(g_cur, s); tick(g_cur); } return __atomic_compare_exchange_n(a, c, v, 0, __ATOMIC_SEQ_CST, __ATOMIC_SEQ_CST); } \
-  T __tsan_atomic##N##_compare_exchange_val(volatile T *a, T c, T v, int, int) { if (g_active) { SyncObj &s = sync_for((const void *)a); acquire(g_cur, s); release(g_cur, s); tick(g_cur); } __atomic_compare_exchange_n(a, &c, v, 0, __ATOMIC_SEQ_CST, __ATOMIC_SEQ_CST); return c; }
+  T __tsan_atomic##N##_load(const volatile T *a, int) { ATOMIC_PRE(); T v = __atomic_load_n(a, __ATOMIC_SEQ_CST); if (so_) acquire(me_, *so_); return v; } \
+  void __tsan_atomic##N##_store(volatile T *a, T v, int) { ATOMIC_PRE(); if (so_) release(me_, *so_); __atomic_store_n(a, v, __ATOMIC_SEQ_CST); } \
+  T __tsan_atomic##N##_exchange(volatile T *a, T v, int) { ATOMIC_PRE(); if (so_) { acquire(me_, *so_); release(me_, *so_); } return __atomic_exchange_n(a, v, __ATOMIC_SEQ_CST); } \
+  T __tsan_atomic##N##_fetch_add(volatile T *a, T v, int) { ATOMIC_PRE(); if (so_) { acquire(me_, *so_); release(me_, *so_); } return __atomic_fetch_add(a, v, __ATOMIC_SEQ_CST); } \
+  T __tsan_atomic##N##_fetch_sub(volatile T *a, T v, int) { ATOMIC_PRE(); if (so_) { acquire(me_, *so_); release(me_, *so_); } return __atomic_fetch_sub(a, v, __ATOMIC_SEQ_CST); } \
+  T __tsan_atomic##N##_fetch_and(volatile T *a, T v, int) { ATOMIC_PRE(); if (so_) { acquire(me_, *so_); release(me_, *so_); } return __atomic_fetch_and(a, v, __ATOMIC_SEQ_CST); } \
+  T __tsan_atomic##N##_fetch_or(volatile T *a, T v, int) { ATOMIC_PRE(); if (so_) { acquire(me_, *so_); release(me_, *so_); } return __atomic_fetch_or(a, v, __ATOMIC_SEQ_CST); } \
+  T __tsan_atomic##N##_fetch_xor(volatile T *a, T v, int) { ATOMIC_PRE(); if (so_) { acquire(me_, *so_); release(me_, *so_); } return __atomic_fetch_xor(a, v, __ATOMIC_SEQ_CST); } \
+  int __tsan_atomic##N##_compare_exchange_strong(volatile T *a, T *c, T v, int, int) { ATOMIC_PRE(); if (so_) { acquire(me_, *so_); release(me_, *so_); } return __atomic_compare_exchange_n(a, c, v, 0, __ATOMIC_SEQ_CST, __ATOMIC_SEQ_CST); } \
+  int __tsan_atomic##N##_compare_exchange_weak(volatile T *a, T *c, T v, int, int) { ATOMIC_PRE(); if (so_) { acquire(me_, *so_); release(me_, *so_); } return __atomic_compare_exchange_n(a, c, v, 0, __ATOMIC_SEQ_CST, __ATOMIC_SEQ_CST); } \
+  T __tsan_atomic##N##_compare_exchange_val(volatile T *a, T c, T v, int, int) { ATOMIC_PRE(); if (so_) { acquire(me_, *so_); release(me_, *so_); } __atomic_compare_exchange_n(a, &c, v, 0, __ATOMIC_SEQ_CST, __ATOMIC_SEQ_CST); return c; }
 ATOMIC_FOR(uint8_t, 8) ATOMIC_FOR(uint16_t, 16) ATOMIC_FOR(uint32_t, 32) ATOMIC_FOR(uint64_t, 64)
 void __tsan_atomic_thread_fence(int) { __atomic_thread_fence(__ATOMIC_SEQ_CST); }
 void __tsan_atomic_signal_fence(int) {}
